@@ -853,19 +853,63 @@ class Engine:
     # ---- solver wrappers
     def _check(self, *assumptions, kind='feas'):
         t0 = time.time()
-        r = self.solver.check(*assumptions)
+        if kind == 'feas' and self.short_timeout_ms < self.timeout_ms:
+            self.solver.set('timeout', self.short_timeout_ms)
+            try:
+                r = self.solver.check(*assumptions)
+            finally:
+                self.solver.set('timeout', self.timeout_ms)
+            if r == z3.unknown:
+                r = self._guided(assumptions)
+                if r == z3.unknown:
+                    r = self.solver.check(*assumptions)
+        else:
+            r = self.solver.check(*assumptions)
         self.stats['solver_s'] += time.time() - t0
         self.stats['solver_calls'] += 1
         self.stats['feas_queries' if kind == 'feas' else 'prop_queries'] += 1
         if r == z3.unknown:
             raise Inconclusive("solver returned unknown (%s): %s" % (kind, self.solver.reason_unknown()))
+        if r == z3.sat:
+            gm = getattr(self, '_guided_model', None)
+            if gm is not None:
+                self.last_model = gm
+                self._guided_model = None
+            else:
+                self.last_model = self.solver.model()
         return r == z3.sat
+
+    def _guided(self, assumptions):
+        """satisfiability by guessing: fix the input atoms to small rationals; sat answers are genuine"""
+        import random
+        rnd = random.Random(4711)
+        terms = list(self.input_terms.values())
+        if not terms:
+            return z3.unknown
+        for k in range(40):
+            self.solver.push()
+            try:
+                for t in terms:
+                    if z3.is_int(t):
+                        self.solver.add(t == rnd.randint(-3, 3))
+                    else:
+                        self.solver.add(t == z3.RealVal("%d/%d" % (rnd.randint(-6, 6), rnd.choice((1, 1, 2, 3)))))
+                self.solver.set('timeout', 3000)
+                rr = self.solver.check(*assumptions)
+                self.solver.set('timeout', self.timeout_ms)
+                if rr == z3.sat:
+                    self.stats['guided_models'] = self.stats.get('guided_models', 0) + 1
+                    self._guided_model = self.solver.model()
+                    return z3.sat
+            finally:
+                self.solver.pop()
+        return z3.unknown
 
     def _ensure_model(self):
         if self.model is None:
             if not self._check():
                 raise PathInfeasible()
-            self.model = self.solver.model()
+            self.model = self.last_model
         return self.model
 
     # ---- variables
@@ -1010,7 +1054,7 @@ class Engine:
         else:
             val = self._check(term)
             if val:
-                self.model = self.solver.model()
+                self.model = self.last_model
         other = z3.Not(term) if val else term
         pending = self._check(other)
         self.stats['decisions'] += 1
@@ -1184,7 +1228,7 @@ class Engine:
                 self.solver.pop()
         # 3. the full query with the long timeout
         if self._check(neg, kind='prop'):
-            return self.solver.model()
+            return self.last_model
         return None
 
     def _check_raw(self, assumption, timeout_ms):
@@ -1208,7 +1252,7 @@ class Engine:
         if phi is False:
             return None
         if self._check(phi, kind='prop'):
-            return self.solver.model()
+            return self.last_model
         return None
 
     def path_condition(self):
